@@ -434,3 +434,15 @@ func H_C08_nestedDefinition() {
 	vfNote(out)
 	vfAssert(out == want, "a nested block definition defines (and overrides) like a top-level one")
 }
+
+// H_C08_crossDirectory: an extends chain with imports that crosses directories with
+// relative names (see c15Chain): the root layout's body is rendered with the most-derived
+// blocks, taken from the files each clause names relative to its own template - not from
+// files of the same name next to the executed page.
+//
+//gosym:reach rendered
+func H_C08_crossDirectory() {
+	_, err, _ := c15Chain()
+	vfReach("rendered")
+	vfAssert(err == nil, "the chain loads and renders")
+}
